@@ -939,6 +939,11 @@ def join_guards(a, b, out, grow=True):
             elif ka == "bool" and xa.is_const() and xb.is_const() and xa.lo != xb.lo:
                 new_keys.add(((cell, p), xa.lo))
                 new_keys.add(((cell, p), xb.lo))
+            elif ka == "bool" and xa.is_const() != xb.is_const():
+                # decided on one side only (`a && b` materialised: false on the short-circuit path, the comparison's result on the other):
+                # the value the decided side excludes can only come from the other side, whose facts it therefore guards
+                c0 = xa.lo if xa.is_const() else xb.lo
+                new_keys.add(((cell, p), 1 - c0))
     if not keys and not new_keys:
         return {}
     lost_a = lost_b = None
